@@ -161,6 +161,23 @@ def val(v):
     return repr(v)
 
 
+PROBES = ["a", "a/x", "a/y", "a/x/p", "b", "/a", "/a/x", "zz", "a/zz", "a/x/zz/q"]
+
+
+def lookups(r):
+    """Outcome of `in`, get() and [] for a fixed set of probe paths (incl. paths running through a dataset)."""
+    out = {}
+    for p in PROBES:
+        res = []
+        for f in (lambda: p in r, lambda: r.get(p) is None, lambda: r[p].name):
+            try:
+                res.append(f())
+            except Exception as e:
+                res.append("exc")  # (only success/failure is compared, not the exception class)
+        out[p] = res
+    return out
+
+
 def apply(r, op, v):
     kind, p = op[0], op[1]
     try:
@@ -213,6 +230,10 @@ try:
             break
         if ta != tb:
             bad.append(("tree differs after container %d" % i, ta, tb))
+            break
+        la, lb = lookups(rec), lookups(plain)
+        if la != lb:
+            bad.append(("lookups (in / get / []) differ after container %d" % i, {k: (la[k], lb[k]) for k in la if la[k] != lb[k]}))
             break
     if FINAL is not None and not bad and FINAL[0] == "copy_into_patch":
         # IH5-specific: re-creates the newest value in the current patch; must not change the view
